@@ -141,6 +141,7 @@ def run_verus(path, extra=(), timeout=600):
 
 CLOSURE_RE = re.compile(r'(?:[(,=]\s*(?:move\s+)?)\|([^|\n]*)\|(\s*->\s*\()?')
 BASELINE_FILE = os.path.join(HERE, 'closure_baseline.json')
+SIG_BASELINE_FILE = os.path.join(HERE, 'signature_baseline.json')
 
 
 def unannotated_closures(text):
@@ -273,7 +274,9 @@ def _blocks(body):
             kind = 'body'
         elif before.endswith('=>'):
             kind = 'arm'
-        elif re.search(r'\b(else|loop)$', before):
+        elif re.search(r'\bloop$', before):
+            kind = 'loop'      # `loop {}` ends only through break / return: the point after it is not a probe point
+        elif re.search(r'\belse$', before):
             kind = 'else'
         else:
             # find the statement head: scan back to previous ; { } at same depth
@@ -312,7 +315,9 @@ def gen_probes(ctx):
         fname = m.group(1)
         for k, (o, c, kind) in enumerate(blocks):
             inner = body[o + 1:c]
-            diverges = bool(re.search(r'\b(return|break|continue)\b|\?\s*[;).]|\?\s*$', re.sub(r'//.*', '', inner)))
+            if re.search(r'\b(explicit_panic\s*\(|unreachable!\s*\()', re.sub(r'//.*', '', inner)) and not any(o < o2 and c2 < c for (o2, c2, _k) in blocks):
+                continue    # a block whose own statement is `panic!` / `unreachable!`: proving it dead is the body obligation itself
+            diverges = bool(re.search(r'\b(return|break|continue)\b|\?\s*[;).]|\?\s*$|\b(resume_unwind|explicit_panic|unreachable|panic)\s*!?\s*\(', re.sub(r'//.*', '', inner)))
             # probe points: (a) right at block entry; (b) after the end of every enclosing/own statement block
             points = [('entry', o + 1)]
             if not diverges:
@@ -606,7 +611,7 @@ def _escalate(text, ctx, errors, quarantined):
                 pos = text.find(sig)
                 if pos >= 0:
                     end = text.find('// @QUARANTINED', pos)
-                    if end >= 0 and pos <= off <= end + 20:
+                    if end >= 0 and text.rfind('\n', 0, pos) + 1 <= off <= end + 20:
                         found = (e, pos, end + len('// @QUARANTINED'))
         if not found:
             return None
@@ -743,6 +748,16 @@ def run_unit(name, tier, repo=None, cache=None, probes=True):
                 if o.get('fn_key') in tainted or any(o['id'] == k or o['id'].startswith(k + '::') for k in tainted):
                     o['tainted'] = 'the function now contains a closure without contract that the pinned tree does not have'
             r['closure_counts'] = counts
+            # a function whose SIGNATURE differs from the pinned one has had responsibilities moved in or out of it: its
+            # function-level contract may no longer be what the property needs, so a failure needs a failing input to count
+            try:
+                sig_base = json.load(open(SIG_BASELINE_FILE)).get(unit.NAME, {})
+            except (OSError, ValueError):
+                sig_base = {}
+            resig = {e.key for e in ctx.extracted if getattr(e, 'sig_orig', None) and e.key in sig_base and sig_base[e.key] != e.sig_orig}
+            for o in r['obligations']:
+                if not o.get('tainted') and (o.get('fn_key') in resig or any(o['id'] == k or o['id'].startswith(k + '::') for k in resig)):
+                    o['tainted'] = 'the signature of the function differs from the pinned one (its contract was written for the old division of work)'
             # functions that call an auto-included (contract-less) helper or use an opaque auto-included constant
             if ctx.helpers:
                 hp = re.compile(r'\b(%s)\b' % '|'.join(re.escape(h) for h in ctx.helpers))
@@ -750,6 +765,11 @@ def run_unit(name, tier, repo=None, cache=None, probes=True):
                 for o in r['obligations']:
                     if not o.get('tainted') and (o.get('fn_key') in calling or any(o['id'] == k or o['id'].startswith(k + '::') for k in calling)):
                         o['tainted'] = 'the function now uses helper(s) %s that carry no contract' % ', '.join(sorted(set(hp.findall(' '.join(e.text for e in ctx.extracted if e.key in calling and (o.get('fn_key') == e.key or o['id'] == e.key or o['id'].startswith(e.key + '::')))))))
+            have = {o['id'] for o in r['obligations']}
+            for lo in ctx.lost:
+                if lo['id'] not in have:
+                    r['obligations'].append(dict(id=lo['id'], props=lo['props'], prose=lo['prose'], fn_key=lo['fn_key'], kind='lost', line=0, status='unreached',
+                                                 backend='verus/z3', detail=[], unreached='not stated on this tree: ' + lo['reason']))
             base.update(r)
             if probes and getattr(unit, 'PROBES', True) and ctx.probe_fns:
                 base['probes'] = run_probes(unit, ctx, text, workdir)
@@ -1101,9 +1121,10 @@ def check_property(prop, tier, registry, seed=0):
                         suffix = ''
             except Exception as e:  # counterexample search is best effort
                 replay['counterexample_error'] = repr(e)
-        if suffix and o['backend'].startswith('verus') and o.get('tainted'):
+        if suffix and o['backend'].startswith('verus') and (o.get('tainted') or '@CONFIRM' in o.get('prose', '')):
+            why = o.get('tainted') or 'it is a sufficient condition that is stricter than the property (marked @CONFIRM)'
             undecided.append(dict(unit=o['unit'], status='undecided', backend='verus',
-                                  reason='obligation %s cannot be discharged: %s, and no failing input was found on the real code' % (o['id'], o['tainted'])))
+                                  reason='obligation %s cannot be discharged: %s, and no failing input was found on the real code' % (o['id'], why)))
             continue
         with open(rp, 'w') as f:
             json.dump(replay, f, indent=1)
